@@ -133,7 +133,8 @@ class TlcResult:
         self.depth = int(m.group(1)) if m else 0
         self.ok = "Model checking completed. No error has been found." in out
         self.invariant_violated = re.findall(r"Invariant (\S+) is violated", out)
-        self.property_violated = "Temporal properties were violated" in out or bool(re.search(r"Action property \S+ is violated", out))
+        self.property_violated = ("Temporal properties were violated" in out or bool(re.search(r"Temporal property \S+ was violated", out))
+                                  or bool(re.search(r"Action property \S+ is violated", out)))
         self.error = None
         self.partial = False          # stopped by the time budget before the state space was exhausted
         if not self.ok and not self.invariant_violated and not self.property_violated:
